@@ -135,6 +135,32 @@ func checkC14(r *Result) {
 		}
 		r.check(nMint == 1, "CLAIM-GUARDS", "(x/bridge/keeper.Keeper).ClaimDeposit # one mint site", P.Pos(cd.Pos()), fmt.Sprintf("%d", nMint))
 		r.check(mintAmt != "" && sentTip != "" && sentRest != "", "CLAIM-ROUTING", "(x/bridge/keeper.Keeper).ClaimDeposit # mint, tip and recipient transfers present", P.Pos(cd.Pos()), "minted: "+clip(mintAmt, 60))
+		// a claim that succeeds did all of it: marked the deposit, minted, paid the recipient (and the tip when there is one)
+		{
+			pe := AnalyzePaths(cd, []Atom{
+				{Name: "marked", Event: P.CallEvent(descIs("coll:x/bridge/keeper.Keeper.DepositIdClaimedMap.Set"), T)},
+				{Name: "minted", Event: P.CallEvent(func(c *CallSite) bool { return isBankCall(c, "MintCoins") }, T)},
+				{Name: "paidRecipient", Event: P.CallEvent(func(c *CallSite) bool {
+					return strings.HasSuffix(c.Callee, "BankKeeper.SendCoinsFromModuleToAccount") && !strings.HasPrefix(NewTermer().Of(Arg(c.Instr, 2)).Op, "param:4:")
+				}, T)},
+				{Name: "paidTip", Event: P.CallEvent(func(c *CallSite) bool {
+					return strings.HasSuffix(c.Callee, "BankKeeper.SendCoinsFromModuleToAccount") && strings.HasPrefix(NewTermer().Of(Arg(c.Instr, 2)).Op, "param:4:")
+				}, T)},
+				{Name: "tipPositive", Stable: true, Cond: func(rel *Term) (bool, bool) {
+					return strings.HasSuffix(rel.Op, "Coins).IsAllPositive") && rel.Contains("DecodeDepositReportValue"), true
+				}},
+			})
+			okAll, n, det := true, 0, ""
+			for _, ret := range SuccessReturns(cd) {
+				n++
+				if bad := pe.Require(ret, func(v map[string]bool) bool {
+					return v["marked"] && v["minted"] && v["paidRecipient"] && (v["paidTip"] || !v["tipPositive"])
+				}); len(bad) > 0 {
+					okAll, det = false, fmt.Sprint(bad)
+				}
+			}
+			r.check(okAll && n > 0 && len(pe.Matched["tipPositive"]) > 0, "CLAIM-ROUTING", "(x/bridge/keeper.Keeper).ClaimDeposit # every successful claim marked the deposit, minted and paid the recipient and the tip", P.Pos(cd.Pos()), fmt.Sprintf("%d success returns %s", n, det))
+		}
 		// nothing is written before the decode succeeded
 		for _, cs := range P.CallSitesIn(cd) {
 			if strings.HasPrefix(cs.Desc(), "coll:") && (cs.Method == "Set" || cs.Method == "Remove") || isBankCall(cs, "MintCoins") || strings.HasPrefix(cs.Method, "SendCoins") {
@@ -195,6 +221,19 @@ func checkC14(r *Result) {
 				bad := ps.Require(cs.Instr, func(v map[string]bool) bool { return v["read"] })
 				r.check(len(bad) == 0, "WITHDRAW-ID", "(x/bridge/keeper.Keeper).IncrementWithdrawalId # counter written after being read", P.Pos(cs.Pos()), fmt.Sprintf("valuations: %v", statesStr(ps, cs.Instr)))
 			}
+		}
+		// every id handed out was stored: a success return comes after a write of the counter and returns the stored id
+		{
+			pw := AnalyzePaths(inc, []Atom{{Name: "written", Event: P.CallEvent(descIs("coll:x/bridge/keeper.Keeper.WithdrawalId.Set"), T)}})
+			okAll, nRet, det := true, 0, ""
+			for _, ret := range SuccessReturns(inc) {
+				nRet++
+				v := NewTermer().Of(ResultOf(ret, 0))
+				if bad := pw.Require(ret, func(v map[string]bool) bool { return v["written"] }); len(bad) > 0 || !strings.HasPrefix(v.Op, "field:x/bridge/types.WithdrawalId.Id") && v.Op != "const:1" && !(v.Op == "+" && v.Contains("WithdrawalId.Id")) && !strings.HasPrefix(v.Op, "after-store:") {
+					okAll, det = false, "returned: "+v.Brief()+fmt.Sprint(" ", bad)
+				}
+			}
+			r.check(okAll && nRet > 0, "WITHDRAW-ID", "(x/bridge/keeper.Keeper).IncrementWithdrawalId # every id handed out is the counter value just stored", P.Pos(inc.Pos()), fmt.Sprintf("%d success returns %s", nRet, det))
 		}
 		// the stored id is either the constant 1 (first) or previous + 1
 		one, incd := false, false
